@@ -401,7 +401,7 @@ class ModelFile:
         If the given UUID is not linked to from this file, None is
         returned.
         """
-        return self.__hrefsources[element_id]
+        return self.__hrefsources.get(element_id)
 
 
 class MelodyLoader:
@@ -1210,7 +1210,13 @@ class MelodyLoader:
         return self[href]
 
     def _unfollow_href(self, element_id: str) -> etree._Element:
-        for tree in self.trees.values():
+        # The placeholder of a semantic fragment lives in a semantic
+        # file; visual files merely reference the same ID from diagrams.
+        trees = sorted(
+            self.trees.values(),
+            key=lambda t: t.fragment_type is not FragmentType.SEMANTIC,
+        )
+        for tree in trees:
             element = tree.unfollow_href(element_id)
             if element is not None:
                 return element
